@@ -211,6 +211,22 @@ def collision_scripts(rng, n):
     return out
 
 
+def helper_only_scripts():
+    """Devices whose methods are called ONLY from helper functions / button callbacks (never from setup or loop code directly):
+    whatever support code the calls need still has to be part of the sketch."""
+    out = []
+    lcd = "lcd = LCD(rs=12, en=11, d4=5, d5=4, d6=3, d7=2)\n"
+    out.append(HDR + lcd + "def show(v):\n    lcd.line(0, \"value\")\n    lcd.progress(1, v, 100)\n    return v\nq = show(30)\nmon.write(q)\n")
+    out.append(HDR + lcd + "def refresh():\n    lcd.write(0, 0, \"hi\", align=\"right\")\n    lcd.message(\"a\", \"b\")\n\nbtn = Button(2, on_click=refresh)\nwhile True:\n    sleep(10)\n")
+    out.append(HDR + "lcd = LCD(i2c_addr=39)\ndef banner():\n    lcd.line(1, \"x\", align=\"center\")\n    return 1\nwhile True:\n    z = banner()\n    sleep(50)\n")
+    out.append(HDR + "bz = Buzzer(8)\ndef chirp():\n    bz.melody(\"success\")\n    bz.beep(440, times=2)\n    return 1\nq = chirp()\n")
+    out.append(HDR + "sv = Servo(9)\nmot = DCMotor(2, 4, 5)\ndef park():\n    sv.write(0)\n    mot.stop()\n    return 0\nbtn = Button(3, on_click=park)\nwhile True:\n    sleep(5)\n")
+    out.append(HDR + "items = [1, 2, 3]\ndef total(xs):\n    acc = 0\n    for i in range(len(xs)):\n        acc = acc + xs[i]\n    return acc\nt = total(items)\nmon.write(t)\n")
+    out.append(HDR + "def ramp(top):\n    levels = [k * 2 for k in range(top)]\n    return levels\nlv = ramp(3)\nmon.write(lv[1])\n")
+    out.append(HDR + "us = Ultrasonic(2, 3)\npot = Potentiometer(\"A0\")\ndef sense():\n    d = us.measure_distance()\n    return d + pot.read()\nwhile True:\n    r = sense()\n    mon.write(r)\n    sleep(60)\n")
+    return out
+
+
 def mixed(seed_parts, n_prog=30, n_promo=20, n_dev=10):
     rng = rng_for(*seed_parts, "corpus")
     scripts = [prog.generate((*seed_parts, "corpus", i), "clean")["source"] for i in range(n_prog)]
